@@ -2,12 +2,13 @@ import PoryProofs.StmtParse
 /-
 P1 (statement grammar), stage 3 companions: what the errors of the reference elaboration are.
 
-* `Violation e` : `e` is one of the documented located errors (six violations of the statement grammar, two configuration errors of
-  `switch` on an auto-var command, three environment errors of `poryswitch`); `elabL_error` (and its siblings): every
-  error the reference elaboration returns is a `Violation` — so `parse_block_reject` says "the parser reports
-  the documented located error of the first violation in source order".
+* `Violation e` : `e` is one of the documented located errors (six violations of the statement grammar, three
+  configuration errors of auto-var commands in conditions / `switch`, three environment errors of
+  `poryswitch`); `elabL_error` (and its siblings): every error the reference elaboration returns is a
+  `Violation` — so `parse_block_reject` says "the parser reports the documented located error of the first
+  violation in source order".
 * `elabL_append` : a statement list is elaborated left to right (the first violation wins; a statement that is
-  followed by another statement is never "last").
+  followed by another statement is never "last"; implicit data is concatenated).
 * `break_outside_rejected`, `continue_outside_rejected`, `continue_not_last_rejected` : the parser on a block
   whose first violation is that statement; `elabCases_dup`, `elabCases_second_default`, `elabS_empty_switch` :
   the three violations of a `switch`.
@@ -23,6 +24,8 @@ inductive Violation : PFail → Prop
   | duplicateCase (c colon : Tok) (v : String) : Violation (duplicateCaseErr c colon v)
   | secondDefault (d : Tok) : Violation (secondDefaultErr d)
   | emptySwitch (sw rb : Tok) : Violation (emptySwitchErr sw rb)
+  /-- a condition `name(…)` with `name` not a configured auto-var command -/
+  | notLeaf (name : Tok) : Violation (notLeafErr name)
   /-- `switch (name(…))` with `name` not a configured auto-var command -/
   | notAutoVar (name : Tok) : Violation (notAutoVarErr name)
   /-- the configured argument position of the auto-var command of a `switch` addresses no argument -/
@@ -34,41 +37,60 @@ inductive Violation : PFail → Prop
   /-- no case for the value of the switch and no `_` case (environment errors on) -/
   | noPoryCase (ps x : Tok) (v : String) : Violation (noPoryCaseErr ps x v)
 
+theorem elabCond_error (env : Env) (σ : String → String) (c : SCond) (j : Nat) (e : PFail)
+    (h : elabCond env σ c j = .error e) : Violation e := by
+  cases c with
+  | plain g => simp [elabCond] at h
+  | auto fm name lp a0 more rp =>
+    simp only [elabCond] at h
+    split at h
+    · injection h with h; subst h; exact .notLeaf name
+    · split at h
+      · injection h with h; subst h; exact .badPos name rp _ _
+      · cases h
+
 theorem err_inj {α} {e e' : PFail} (h : (Except.error e : Except PFail α) = .error e') : e = e' := by
   injection h
 
 mutual
-theorem elabS_error (env : Env) : (x : SStmt) → ∀ (σ : String → String) (B C : List Nat) (nx : Bool) (i j : Nat) (e : PFail),
-    elabS env σ B C nx x i j = .error e → Violation e
+theorem elabS_error (env : Env) (sn : String) : (x : SStmt) → ∀ (σ : String → String) (B C : List Nat) (nx : Bool) (i j : Nat) (e : PFail),
+    elabS env sn σ B C nx x i j = .error e → Violation e
   | .cmd .., _, _, _, _, _, _, _, h => by simp [elabS] at h
+  | .cmdI .., _, _, _, _, _, _, _, h => by simp [elabS] at h
   | .cmdE .., _, _, _, _, _, _, _, h => by simp [elabS] at h
   | .cmd0 .., _, _, _, _, _, _, _, h => by simp [elabS] at h
   | .label .., _, _, _, _, _, _, _, h => by simp [elabS] at h
   | .labelS .., _, _, _, _, _, _, _, h => by simp [elabS] at h
-  | .ite _ _ _ _ _ body _ elifs els, σ, B, C, _, i, j, e, h => by
+  | .ite _ _ c _ _ body _ elifs els, σ, B, C, _, i, j, e, h => by
     simp only [elabS] at h
     split at h
-    · rename_i e' h1; cases err_inj h; exact elabL_error env body _ _ _ _ _ _ _ h1
+    · rename_i e' h0; cases err_inj h; exact elabCond_error env _ c _ _ h0
     · split at h
-      · rename_i e' h2; cases err_inj h; exact elabElifs_error env elifs _ _ _ _ _ _ h2
+      · rename_i e' h1; cases err_inj h; exact elabL_error env sn body _ _ _ _ _ _ _ h1
       · split at h
-        · rename_i e' h3; cases err_inj h; exact elabElse_error env els _ _ _ _ _ _ h3
-        · cases h
-  | .while_ _ _ _ _ _ body _, σ, B, C, _, i, j, e, h => by
+        · rename_i e' h2; cases err_inj h; exact elabElifs_error env sn elifs _ _ _ _ _ _ h2
+        · split at h
+          · rename_i e' h3; cases err_inj h; exact elabElse_error env sn els _ _ _ _ _ _ h3
+          · cases h
+  | .while_ _ _ c _ _ body _, σ, B, C, _, i, j, e, h => by
     simp only [elabS] at h
     split at h
-    · rename_i e' h1; cases err_inj h; exact elabL_error env body _ _ _ _ _ _ _ h1
-    · cases h
+    · rename_i e' h0; cases err_inj h; exact elabCond_error env _ c _ _ h0
+    · split at h
+      · rename_i e' h1; cases err_inj h; exact elabL_error env sn body _ _ _ _ _ _ _ h1
+      · cases h
   | .whileInf _ _ body _, σ, B, C, _, i, j, e, h => by
     simp only [elabS] at h
     split at h
-    · rename_i e' h1; cases err_inj h; exact elabL_error env body _ _ _ _ _ _ _ h1
+    · rename_i e' h1; cases err_inj h; exact elabL_error env sn body _ _ _ _ _ _ _ h1
     · cases h
-  | .doWhile _ _ body _ _ _ _ _, σ, B, C, _, i, j, e, h => by
+  | .doWhile _ _ body _ _ _ c _, σ, B, C, _, i, j, e, h => by
     simp only [elabS] at h
     split at h
-    · rename_i e' h1; cases err_inj h; exact elabL_error env body _ _ _ _ _ _ _ h1
-    · cases h
+    · rename_i e' h1; cases err_inj h; exact elabL_error env sn body _ _ _ _ _ _ _ h1
+    · split at h
+      · rename_i e' h0; cases err_inj h; exact elabCond_error env _ c _ _ h0
+      · cases h
   | .brk t, σ, B, C, _, i, j, e, h => by
     cases B with
     | nil => simp only [elabS] at h; cases err_inj h; exact .breakOutside t
@@ -83,7 +105,7 @@ theorem elabS_error (env : Env) : (x : SStmt) → ∀ (σ : String → String) (
   | .switch_ sw _ _ _ _ _ _ _ cases rb, σ, B, C, _, i, j, e, h => by
     simp only [elabS] at h
     split at h
-    · rename_i e' h1; cases err_inj h; exact elabCases_error env cases _ _ _ _ _ _ _ _ h1
+    · rename_i e' h1; cases err_inj h; exact elabCases_error env sn cases _ _ _ _ _ _ _ _ h1
     · split at h
       · cases err_inj h; exact .emptySwitch sw rb
       · cases h
@@ -94,7 +116,7 @@ theorem elabS_error (env : Env) : (x : SStmt) → ∀ (σ : String → String) (
     · split at h
       · cases err_inj h; exact .badPos name rp2 _ _
       · split at h
-        · rename_i e' h1; cases err_inj h; exact elabCases_error env cases _ _ _ _ _ _ _ _ h1
+        · rename_i e' h1; cases err_inj h; exact elabCases_error env sn cases _ _ _ _ _ _ _ _ h1
         · split at h
           · cases err_inj h; exact .emptySwitch sw rb
           · cases h
@@ -105,168 +127,170 @@ theorem elabS_error (env : Env) : (x : SStmt) → ∀ (σ : String → String) (
     · split at h
       · cases err_inj h; exact .undefinedSwitch x
       · split at h
-        · rename_i e' h1; cases err_inj h; exact elabPCases_error env cases _ _ _ _ _ _ _ h1
+        · rename_i e' h1; cases err_inj h; exact elabPCases_error env sn cases _ _ _ _ _ _ _ h1
         · split at h
           · cases h
           · split at h
             · cases err_inj h; exact .noPoryCase ps x _
             · cases h
-theorem elabL_error (env : Env) : (b : List SStmt) → ∀ (σ : String → String) (B C : List Nat) (last : Bool) (i j : Nat)
-    (e : PFail), elabL env σ B C last b i j = .error e → Violation e
+theorem elabL_error (env : Env) (sn : String) : (b : List SStmt) → ∀ (σ : String → String) (B C : List Nat) (last : Bool) (i j : Nat)
+    (e : PFail), elabL env sn σ B C last b i j = .error e → Violation e
   | [], _, _, _, _, _, _, _, h => by simp [elabL] at h
   | x :: r, σ, B, C, last, i, j, e, h => by
     simp only [elabL] at h
     split at h
-    · rename_i e' h1; cases err_inj h; exact elabS_error env x _ _ _ _ _ _ _ h1
+    · rename_i e' h1; cases err_inj h; exact elabS_error env sn x _ _ _ _ _ _ _ h1
     · split at h
-      · rename_i e' h2; cases err_inj h; exact elabL_error env r _ _ _ _ _ _ _ h2
+      · rename_i e' h2; cases err_inj h; exact elabL_error env sn r _ _ _ _ _ _ _ h2
       · cases h
-theorem elabElifs_error (env : Env) : (es : List SElif) → ∀ (σ : String → String) (B C : List Nat) (i j : Nat) (e : PFail),
-    elabElifs env σ B C es i j = .error e → Violation e
+theorem elabElifs_error (env : Env) (sn : String) : (es : List SElif) → ∀ (σ : String → String) (B C : List Nat) (i j : Nat) (e : PFail),
+    elabElifs env sn σ B C es i j = .error e → Violation e
   | [], _, _, _, _, _, _, h => by simp [elabElifs] at h
-  | .mk _ _ _ _ _ body _ :: r, σ, B, C, i, j, e, h => by
+  | .mk _ _ c _ _ body _ :: r, σ, B, C, i, j, e, h => by
     simp only [elabElifs] at h
     split at h
-    · rename_i e' h1; cases err_inj h; exact elabL_error env body _ _ _ _ _ _ _ h1
+    · rename_i e' h0; cases err_inj h; exact elabCond_error env _ c _ _ h0
     · split at h
-      · rename_i e' h2; cases err_inj h; exact elabElifs_error env r _ _ _ _ _ _ h2
-      · cases h
-theorem elabElse_error (env : Env) : (el : SElse) → ∀ (σ : String → String) (B C : List Nat) (i j : Nat) (e : PFail),
-    elabElse env σ B C el i j = .error e → Violation e
+      · rename_i e' h1; cases err_inj h; exact elabL_error env sn body _ _ _ _ _ _ _ h1
+      · split at h
+        · rename_i e' h2; cases err_inj h; exact elabElifs_error env sn r _ _ _ _ _ _ h2
+        · cases h
+theorem elabElse_error (env : Env) (sn : String) : (el : SElse) → ∀ (σ : String → String) (B C : List Nat) (i j : Nat) (e : PFail),
+    elabElse env sn σ B C el i j = .error e → Violation e
   | .none, _, _, _, _, _, _, h => by simp [elabElse] at h
   | .some _ _ body _, σ, B, C, i, j, e, h => by
     simp only [elabElse] at h
     split at h
-    · rename_i e' h1; cases err_inj h; exact elabL_error env body _ _ _ _ _ _ _ h1
+    · rename_i e' h1; cases err_inj h; exact elabL_error env sn body _ _ _ _ _ _ _ h1
     · cases h
-theorem elabCases_error (env : Env) : (cs : List SCase) → ∀ (σ : String → String) (B C : List Nat) (seen : List String)
-    (hd : Bool) (i j : Nat) (e : PFail), elabCases env σ B C cs seen hd i j = .error e → Violation e
+theorem elabCases_error (env : Env) (sn : String) : (cs : List SCase) → ∀ (σ : String → String) (B C : List Nat) (seen : List String)
+    (hd : Bool) (i j : Nat) (e : PFail), elabCases env sn σ B C cs seen hd i j = .error e → Violation e
   | [], _, _, _, _, _, _, _, _, h => by simp [elabCases] at h
   | .case c vs colon body :: r, σ, B, C, seen, hd, i, j, e, h => by
     simp only [elabCases] at h
     split at h
     · cases err_inj h; exact .duplicateCase c colon _
     · split at h
-      · rename_i e' h1; cases err_inj h; exact elabL_error env body _ _ _ _ _ _ _ h1
+      · rename_i e' h1; cases err_inj h; exact elabL_error env sn body _ _ _ _ _ _ _ h1
       · split at h
-        · rename_i e' h2; cases err_inj h; exact elabCases_error env r _ _ _ _ _ _ _ _ h2
+        · rename_i e' h2; cases err_inj h; exact elabCases_error env sn r _ _ _ _ _ _ _ _ h2
         · cases h
   | .dflt d _ body :: r, σ, B, C, seen, hd, i, j, e, h => by
     simp only [elabCases] at h
     split at h
     · cases err_inj h; exact .secondDefault d
     · split at h
-      · rename_i e' h1; cases err_inj h; exact elabL_error env body _ _ _ _ _ _ _ h1
+      · rename_i e' h1; cases err_inj h; exact elabL_error env sn body _ _ _ _ _ _ _ h1
       · split at h
-        · rename_i e' h2; cases err_inj h; exact elabCases_error env r _ _ _ _ _ _ _ _ h2
+        · rename_i e' h2; cases err_inj h; exact elabCases_error env sn r _ _ _ _ _ _ _ _ h2
         · cases h
-theorem elabPCases_error (env : Env) : (cs : List SPCase) → ∀ (σ : String → String) (B C : List Nat)
+theorem elabPCases_error (env : Env) (sn : String) : (cs : List SPCase) → ∀ (σ : String → String) (B C : List Nat)
     (acc : List (String × List Stmt × ImpData)) (i j : Nat) (e : PFail),
-    elabPCases env σ B C cs acc i j = .error e → Violation e
+    elabPCases env sn σ B C cs acc i j = .error e → Violation e
   | [], _, _, _, _, _, _, _, h => by simp [elabPCases] at h
   | .colon _ _ x :: r, σ, B, C, acc, i, j, e, h => by
     simp only [elabPCases] at h
     split at h
-    · rename_i e' h1; cases err_inj h; exact elabS_error env x _ _ _ _ _ _ _ h1
-    · exact elabPCases_error env r _ _ _ _ _ _ _ h
+    · rename_i e' h1; cases err_inj h; exact elabS_error env sn x _ _ _ _ _ _ _ h1
+    · exact elabPCases_error env sn r _ _ _ _ _ _ _ h
   | .brace _ _ body _ :: r, σ, B, C, acc, i, j, e, h => by
     simp only [elabPCases] at h
     split at h
-    · rename_i e' h1; cases err_inj h; exact elabL_error env body _ _ _ _ _ _ _ h1
-    · exact elabPCases_error env r _ _ _ _ _ _ _ h
+    · rename_i e' h1; cases err_inj h; exact elabL_error env sn body _ _ _ _ _ _ _ h1
+    · exact elabPCases_error env sn r _ _ _ _ _ _ _ h
 end
 
 
 /-! ### source order -/
 
 /-- A list followed by further statements: its statements are never "last in the block". -/
-theorem elabL_append (env : Env) (σ : String → String) (B C : List Nat) (last : Bool) (a b : List SStmt) (hb : b ≠ [])
-    (i j : Nat) :
-    elabL env σ B C last (a ++ b) i j =
-      match elabL env σ B C false a i j with
+theorem elabL_append (env : Env) (sn : String) (σ : String → String) (B C : List Nat) (last : Bool)
+    (a b : List SStmt) (hb : b ≠ []) (i j : Nat) :
+    elabL env sn σ B C last (a ++ b) i j =
+      match elabL env sn σ B C false a i j with
       | .error e => .error e
-      | .ok (x, i1, j1) =>
-        match elabL env σ B C last b i1 j1 with
+      | .ok (x, m1, i1, j1) =>
+        match elabL env sn σ B C last b i1 j1 with
         | .error e => .error e
-        | .ok (y, i2, j2) => .ok (x ++ y, i2, j2) := by
+        | .ok (y, m2, i2, j2) => .ok (x ++ y, m1.add m2, i2, j2) := by
   induction a generalizing i j with
   | nil =>
     simp only [List.nil_append, elabL]
-    cases elabL env σ B C last b i j with
+    cases elabL env sn σ B C last b i j with
     | error e => rfl
-    | ok v => obtain ⟨y, i2, j2⟩ := v; rfl
+    | ok v => obtain ⟨y, m2, i2, j2⟩ := v; simp [C10c.nil_add]
   | cons x r ih =>
     have hne : (r ++ b).isEmpty = false := by cases r <;> cases b <;> simp_all
     simp only [List.cons_append, elabL, hne, Bool.false_and, Bool.and_false]
-    cases elabS env σ B C false x i j with
+    cases elabS env sn σ B C false x i j with
     | error e => rfl
     | ok v =>
-      obtain ⟨x', i1, j1⟩ := v
+      obtain ⟨x', m1, i1, j1⟩ := v
       simp only [ih]
-      cases elabL env σ B C false r i1 j1 with
+      cases elabL env sn σ B C false r i1 j1 with
       | error e => rfl
       | ok w =>
-        obtain ⟨r', i2, j2⟩ := w
+        obtain ⟨r', m2, i2, j2⟩ := w
         simp only
-        cases elabL env σ B C last b i2 j2 with
+        cases elabL env sn σ B C last b i2 j2 with
         | error e => rfl
-        | ok u => obtain ⟨y, i3, j3⟩ := u; simp
+        | ok u => obtain ⟨y, m3, i3, j3⟩ := u; simp [C10c.add_assoc]
 
 /-! ### the violations of `switch` -/
 
-theorem elabCases_dup (env : Env) (σ : String → String) (B C : List Nat) (c : Tok) (vs : List Tok) (colon : Tok)
+theorem elabCases_dup (env : Env) (sn : String) (σ : String → String) (B C : List Nat) (c : Tok) (vs : List Tok) (colon : Tok)
     (body : List SStmt) (r : List SCase) (seen : List String) (hd : Bool) (i j : Nat)
     (h : caseValue σ vs ∈ seen) :
-    elabCases env σ B C (.case c vs colon body :: r) seen hd i j =
+    elabCases env sn σ B C (.case c vs colon body :: r) seen hd i j =
       .error (duplicateCaseErr c colon (caseValue σ vs)) := by
   simp [elabCases, h]
 
-theorem elabCases_second_default (env : Env) (σ : String → String) (B C : List Nat) (d colon : Tok)
+theorem elabCases_second_default (env : Env) (sn : String) (σ : String → String) (B C : List Nat) (d colon : Tok)
     (body : List SStmt) (r : List SCase) (seen : List String) (i j : Nat) :
-    elabCases env σ B C (.dflt d colon body :: r) seen true i j = .error (secondDefaultErr d) := by
+    elabCases env sn σ B C (.dflt d colon body :: r) seen true i j = .error (secondDefaultErr d) := by
   simp [elabCases]
 
-theorem elabS_empty_switch (env : Env) (σ : String → String) (B C : List Nat) (nx : Bool) (sw lp v lp2 : Tok)
+theorem elabS_empty_switch (env : Env) (sn : String) (σ : String → String) (B C : List Nat) (nx : Bool) (sw lp v lp2 : Tok)
     (ops : List Tok) (rp2 rp lb rb : Tok) (i j : Nat) :
-    elabS env σ B C nx (.switch_ sw lp v lp2 ops rp2 rp lb [] rb) i j = .error (emptySwitchErr sw rb) := by
+    elabS env sn σ B C nx (.switch_ sw lp v lp2 ops rp2 rp lb [] rb) i j = .error (emptySwitchErr sw rb) := by
   simp [elabS, elabCases]
 
 /-! ### `break` / `continue` at the top level of a block -/
 section
 variable (env : Env) (sn : String) (startTok : Tok) (pre post : List SStmt) (t rb : Tok) (rest : List Tok)
-  (s : PState) (fuel : Nat) (a : List Stmt) (i1 j1 : Nat)
+  (s : PState) (fuel : Nat) (a : List Stmt) (m1 : ImpData) (i1 j1 : Nat)
 
 /-- `break` outside every loop / switch (the statements before it being fine). -/
 theorem break_outside_rejected (hwf : SWF (pre ++ .brk t :: post)) (hrb : rb.type = .RBRACE)
     (htoks : s.toks = printStmts (pre ++ .brk t :: post) ++ rb :: rest)
     (hfuel : needL (pre ++ .brk t :: post) ≤ fuel) (hB : s.breakStack = [])
-    (hpre : elabL env (substC s.constants) [] s.continueStack false pre s.nextSid s.nextCmdId = .ok (a, i1, j1)) :
+    (hpre : elabL env sn (substC s.constants) [] s.continueStack false pre s.nextSid s.nextCmdId = .ok (a, m1, i1, j1)) :
     (parseBlockStatement env sn startTok fuel [] {}).run s = .error (breakOutsideErr t) := by
   apply parse_block_reject env sn startTok _ rb rest hwf hrb s htoks fuel hfuel
   unfold elabE ctxOf
-  simp only [hB, elabL_append _ _ _ _ _ pre (.brk t :: post) (by simp), hpre, elabL, elabS]
+  simp only [hB, elabL_append _ _ _ _ _ _ pre (.brk t :: post) (by simp), hpre, elabL, elabS]
 
 /-- `continue` outside every loop. -/
 theorem continue_outside_rejected (hwf : SWF (pre ++ .cont t :: post)) (hrb : rb.type = .RBRACE)
     (htoks : s.toks = printStmts (pre ++ .cont t :: post) ++ rb :: rest)
     (hfuel : needL (pre ++ .cont t :: post) ≤ fuel) (hC : s.continueStack = [])
-    (hpre : elabL env (substC s.constants) s.breakStack [] false pre s.nextSid s.nextCmdId = .ok (a, i1, j1)) :
+    (hpre : elabL env sn (substC s.constants) s.breakStack [] false pre s.nextSid s.nextCmdId = .ok (a, m1, i1, j1)) :
     (parseBlockStatement env sn startTok fuel [] {}).run s = .error (continueOutsideErr t) := by
   apply parse_block_reject env sn startTok _ rb rest hwf hrb s htoks fuel hfuel
   unfold elabE ctxOf
-  simp only [hC, elabL_append _ _ _ _ _ pre (.cont t :: post) (by simp), hpre, elabL, elabS]
+  simp only [hC, elabL_append _ _ _ _ _ _ pre (.cont t :: post) (by simp), hpre, elabL, elabS]
 
 /-- `continue` inside a loop but followed by another statement. -/
 theorem continue_not_last_rejected (x : SStmt) (hwf : SWF (pre ++ .cont t :: x :: post))
     (hrb : rb.type = .RBRACE) (htoks : s.toks = printStmts (pre ++ .cont t :: x :: post) ++ rb :: rest)
     (hfuel : needL (pre ++ .cont t :: x :: post) ≤ fuel) (k : Nat) (C' : List Nat)
     (hC : s.continueStack = k :: C')
-    (hpre : elabL env (substC s.constants) s.breakStack (k :: C') false pre s.nextSid s.nextCmdId =
-      .ok (a, i1, j1)) :
+    (hpre : elabL env sn (substC s.constants) s.breakStack (k :: C') false pre s.nextSid s.nextCmdId =
+      .ok (a, m1, i1, j1)) :
     (parseBlockStatement env sn startTok fuel [] {}).run s = .error (continueNotLastErr t) := by
   apply parse_block_reject env sn startTok _ rb rest hwf hrb s htoks fuel hfuel
   unfold elabE ctxOf
-  simp only [hC, elabL_append _ _ _ _ _ pre (.cont t :: x :: post) (by simp), hpre, elabL, elabS,
+  simp only [hC, elabL_append _ _ _ _ _ _ pre (.cont t :: x :: post) (by simp), hpre, elabL, elabS,
     List.isEmpty_cons, Bool.false_and, Bool.false_eq_true, if_false]
 
 end
